@@ -84,6 +84,10 @@ class NoneObject:
     def __len__(self):
         return 0
 
+    def __iter__(self):
+        # iterating a missing field yields nothing, in the compiled engine too: any(... for x in r.missing) is False
+        return iter(())
+
     def _missing(a, *args):
         return a
 
